@@ -20,7 +20,7 @@ for h in a.hs:
     log = '%s/%s.%s.log' % (base, h, a.p)
     td = '%s/t_%s_%s' % (base, h, a.p)
     hq = ('--exact --harness ' + driver.fq(REG[h])) if h in REG else ('--harness ' + h)
-    cmd = 'ulimit -v %d; exec timeout -s KILL %d setsid -w cargo kani --target-dir %s %s %s' % (a.m * 1024 * 1024, a.t, td, hq, a.x)
+    cmd = 'ulimit -v %d; exec timeout -s KILL %d setsid -w cargo kani -Z stubbing --target-dir %s %s %s' % (a.m * 1024 * 1024, a.t, td, hq, a.x)
     procs.append((h, log, td, time.time(), subprocess.Popen(['bash', '-c', cmd], cwd=ov, stdout=open(log, 'w'), stderr=subprocess.STDOUT, env=driver.KANI_ENV)))
 for h, log, td, t0, p in procs:
     rc = p.wait()
